@@ -2,8 +2,8 @@
 # tools/prove.sh: check the TLAPS proofs in spec/ with tlapm (in a scratch directory: tlapm writes a cache next to the module)
 d=$(mktemp -d /tmp/verif-prove-XXXXXX)
 rc=0
-for m in CleanWriteN "$@"; do
-  cp /verif/spec/$m.tla $d/
+cp /verif/spec/*.tla $d/; rm -f $d/TLAPS.tla
+for m in CleanWriteN DecodeHistoryProof "$@"; do
   out=$(cd $d && timeout 900 tlapm $m.tla 2>&1 | grep -E "obligations|ERROR" | head -5)
   echo "$m: $out"
   echo "$out" | grep -q "All [0-9]* obligations proved" || rc=1
